@@ -13,7 +13,7 @@
                            (count(v2)).  The repaired source says exactly that (Proofs/DryMain.v gen_viol_overlap),
                            so the flag no longer changes the model; it is kept so that a regression of the code
                            is attributed to the recorded (now "fixed") finding. *)
-From TL Require Import Lib.Base Lib.GenTypes Model.DryBase Model.DryPipe Gen.DryGen.
+From TL Require Import Lib.Base Lib.GenTypes Model.DryBase Model.DryPipe Model.DryFilter Gen.DryGen.
 
 Record dquirks := { q_strip_in_code : bool; q_block_comment_kept : bool; q_overlap_asym : bool }.
 Definition dry_ideal : dquirks := Build_dquirks false false false.
@@ -79,6 +79,21 @@ Definition dry_rows (q : dquirks) (W : nat) (files : list afile) : list row := a
 Definition dry_report (q : dquirks) (k : nat) (rows : list row) : list viol := report (model_bparams q) k rows.
 Definition dry_model (q : dquirks) (W k : nat) (files : list afile) : list viol :=
   pipeline (model_aparams q) (model_bparams q) W k files.
+
+(* stage C (suppression): ranges, overlap test, end line and header length as found in the source *)
+Definition model_sparams : sparams :=
+  {| s_block_off := dry_ignore_block_off; s_block_len := dry_ignore_block_len; s_next_off := dry_ignore_next_off;
+     s_range_overlap := dry_range_overlap; s_viol_end := dry_inline_end; s_header_lines := dry_header_scan_lines |}.
+
+(* the reported list: the de-duplicated violations that no dry.ignore pattern and no directive suppresses *)
+Definition dry_final (q : dquirks) (W k : nat) (patterns paths : list string) (files : list afile) : list viol :=
+  unsuppressed model_sparams patterns paths files (dry_model q W k files).
+Definition dry_final_of_rows (q : dquirks) (k : nat) (patterns paths : list string) (files : list afile) (rows : list row) : list viol :=
+  unsuppressed model_sparams patterns paths files (dry_report q k rows).
+
+(* KeywordArgumentFilter with the literals of block_filter.py (Model/DryFilter.v has the skeleton and the matcher) *)
+Definition model_kwarg_filter : list string -> list (nat * nat) -> nat -> nat -> bool :=
+  kwarg_filter_gen dry_kwarg_cmp dry_kwarg_num dry_kwarg_den dry_call_contains.
 
 (* ------------------------------------------------------------------ messages *)
 Definition ref_text (paths : list string) (r : nat * nat * nat) : string :=
